@@ -224,7 +224,10 @@ def rule_sc_shape(repo: Repo, rep: Report) -> int:
             rep.violation("SC-SHAPE", f2, f"partial sums: {unparse(e)}", f"the combined partial sums must be (x1 xor x2, x2); the first half has truth table {table}, the second half is `{second}`")
     n += 1
     dr = repo.method(ci, "decode_recursive")
-    body = [unparse(s) for s in stmts_of(dr.body)]
+    from ..astutil import normalised_statements
+
+    norm = normalised_statements(dr.node)
+    body = [unparse(s) for s in stmts_of(dr.body)] + [unparse(s) for s in norm]
     need = {
         "y1 = self.checknode((y_even, y_odd))": "upper branch LLR from both halves",
         "u1, x1, _ = self.decode_recursive(y1, info_indices[:N // 2])": "first half of the mask with the f-LLRs",
@@ -232,14 +235,15 @@ def rule_sc_shape(repo: Repo, rep: Report) -> int:
         "u2, x2, _ = self.decode_recursive(y2, info_indices[N // 2:])": "second half of the mask with the g-LLRs",
         "u = torch.cat([u1, u2], dim=1)": "decisions in natural order",
         "x = self.f2((x1.clone(), x2.clone()))": "re-encoded partial sums",
-        "y_even, y_odd = (y[:, even_pos], y[:, odd_pos])": "LLR halves",
+        "y_even = y[:, even_pos]": "LLR half (first / even positions)",
+        "y_odd = y[:, odd_pos]": "LLR half (second / odd positions)",
     }
     for t, why in need.items():
         rep.expect(t in body, "SC-SHAPE", dr, f"recursion step `{t}`", why, "SC recursion step changed")
         n += 1
-    halves = {unparse(s.test): [unparse(x) for x in s.body] + ["|"] + [unparse(x) for x in s.orelse] for s in stmts_of(dr.body) if isinstance(s, ast.If) and unparse(s.test) == "not self.polar_i"}
-    want = ["even_pos = torch.arange(0, N // 2).reshape(-1).to(self.device)", "odd_pos = torch.arange(N // 2, N).reshape(-1).to(self.device)", "|", "even_pos = torch.arange(0, N, 2).reshape(-1).to(self.device)", "odd_pos = torch.arange(1, N, 2).reshape(-1).to(self.device)"]
-    rep.expect(halves.get("not self.polar_i") == want, "SC-SHAPE", dr, "split: first/second half (natural order) or even/odd (interleaved), by the encoder's polar_i flag", "same pairing as the encoder's butterfly", "LLR split changed")
+    halves = {unparse(s.test): [unparse(x) for x in s.body] + ["|"] + [unparse(x) for x in s.orelse] for s in norm if isinstance(s, ast.If) and unparse(s.test) == "self.polar_i" and s.orelse}
+    want = ["even_pos = torch.arange(0, N, 2).reshape(-1).to(self.device)", "odd_pos = torch.arange(1, N, 2).reshape(-1).to(self.device)", "|", "even_pos = torch.arange(0, N // 2).reshape(-1).to(self.device)", "odd_pos = torch.arange(N // 2, N).reshape(-1).to(self.device)"]
+    rep.expect(halves.get("self.polar_i") == want, "SC-SHAPE", dr, "split: first/second half (natural order) or even/odd (interleaved), by the encoder's polar_i flag", "same pairing as the encoder's butterfly", "LLR split changed")
     perm = [s for s in stmts_of(dr.body) if isinstance(s, ast.If) and unparse(s.test) == "self.polar_i" and any(unparse(x) == "x = x[:, perm]" for x in s.body)]
     rep.expect(len(perm) == 1, "SC-SHAPE", dr, "interleaved variant re-permutes the partial sums", "consistent with the encoder's interleaver", "partial-sum permutation changed")
     n += 2
